@@ -252,6 +252,21 @@ func (propC03) Draw(rt *rapid.T, w *WorldDesc, mode string) *Plan {
 			id++
 		}
 	}
+	// a second request with other values, in flight together with the matrix calls on each
+	// server: "which fields travel in the path" holds per request, whatever else is being served
+	if rapid.Bool().Draw(rt, "second") {
+		req2 := drawValidReq(rt, w, md, "req2")
+		scrubNonFinite(req2.ProtoReflect(), 0)
+		for _, server := range []string{"go", "ts"} {
+			op := &Op{ID: id, RPC: md.Key, Client: "go", Server: server, App: AppBehaviour{Kind: "respond"}, Opts: opts, Notes: []string{"second=1"}}
+			op.ReqBin, op.RespBin = mustMarshal(req2), mustMarshal(resp)
+			op.ReqJSON = jsonOf(req2)
+			op.ReqChunks = drawChunks(rt, fmt.Sprintf("op%d.reqChunks", id))
+			op.DeadlineMs = 60000
+			p.Ops = append(p.Ops, op)
+			id++
+		}
+	}
 	// URL vs body: a raw request whose body ALSO mentions the path-bound fields, with other
 	// values. Which value the handler sees is part of "where the field travels": both servers
 	// must take it from the same place.
@@ -440,7 +455,7 @@ func (propC03) Check(k *Kernel, cov *Coverage) *Violation {
 		if !c.Returned {
 			return &Violation{Class: "call-hung", Signature: "C03|call-hung|" + pair, Detail: fmt.Sprintf("op %d never returned", c.Op.ID)}
 		}
-		if len(c.Wire) > 0 {
+		if len(c.Wire) > 0 && noteOf(c.Op, "second") != "1" {
 			s := wireShape(c.Wire[0], op.Path)
 			if prev, ok := shapes[ck]; ok && prev != s {
 				return &Violation{Class: "client-inconsistent", Signature: "C03|client-inconsistent|" + ck, Detail: prev + " vs " + s}
